@@ -4,7 +4,7 @@
    closes included) to the n readers it was handed; since the statements quantify over ALL op lists, they
    speak about every intermediate point of every history.  [fixed = true] is the current code (close hook
    once per reader, /repo 057e4df), [fixed = false] the code before that fix (historical Examples below). *)
-From Verif Require Import Bytes Codec TxReaders TxReadersProofs.
+From Verif Require Import Bytes Codec TxReaders TxReadersProofs TxStream TxStreamProofs.
 
 (* The property: the transaction is released when, and only when, every reader has been closed; it is
    released exactly once; a reader that has not been closed never fails (whatever happened to the
@@ -79,3 +79,94 @@ Example C36_ex_repeated_close : (* the history that broke the old code *)
   /\ tx_done (final true 2 [Close 0; Close 0; Read 1]) = false
   /\ rb_hooks (final true 2 [Close 0; Close 0; Read 1; Close 1; Close 1; Close 0]) = 1.
 Proof. repeat split. Qed.
+
+
+(* ================= round 2: GetObject over SEVERAL part stores (Model/TxStream.v) =================
+   stores : list skind  — the configured part stores (filesystem | SQL | outbox over filesystem), store 0 = default;
+   a part is read through the store recorded on its row ([p_store]); [decide stores] is the mode GetObject chooses
+   (NamedPartStores.Capabilities = intersection): MFree = readers carry no transaction, MTx = WithTxReadClosers.
+   [srun m stores bsz s ops] runs a schedule of SR i (one Read), SE i (read to EOF / first error), SC i (Close, also
+   repeated), SX (object deleted by another request), SF (outbox worker pass). *)
+
+(* (a) the decision: tx-free streaming is chosen only if EVERY configured store can read without a transaction, and
+   the transaction is kept as soon as ONE store needs it — whichever store the object's parts are in *)
+Theorem C36_stream_decision : forall stores,
+  (decide stores = MFree <-> forall k, In k stores -> txfree k = true) /\
+  (decide stores = MTx <-> exists k, In k stores /\ txfree k = false).
+Proof. intros stores. split; [apply decide_free_all | apply decide_tx_some]. Qed.
+Print Assumptions C36_stream_decision.
+
+(* ... hence, with that decision, no Read / read-to-end of ANY schedule on ANY object (parts in any store, any part
+   state, any ranges, any buffer size, starting from any state) dereferences a missing transaction *)
+Theorem C36_stream_no_nil_tx : forall stores bsz ops s x,
+  In x (snd (srun (decide stores) stores bsz s ops)) ->
+  fst x <> RErrS ENilTx /\ forall t, fst x <> RErrEnd ENilTx t.
+Proof.
+  intros stores bsz ops s x Hin. pose proof (srun_no_niltx stores bsz ops s x Hin) as H.
+  split; [intros E; apply H; now left | intros t E; apply H; right; now exists t].
+Qed.
+Print Assumptions C36_stream_no_nil_tx.
+
+(* in MTx mode the shared transaction evolves exactly as the WithTxReadClosers machine of round 1 under the Close
+   calls of the schedule, so C36_full applies verbatim: released iff every reader was closed, exactly once *)
+Theorem C36_stream_release : forall stores bsz ps rgs ops,
+  0 < length rgs -> (forall i, In (SC i) ops -> i < length rgs) ->
+  let s := fst (srun MTx stores bsz (sinit MTx ps rgs) ops) in
+  amb s = final true (length rgs) (amb_ops ops) /\
+  (tx_done (amb s) = true <-> forall i, i < length rgs -> In (SC i) ops) /\
+  rb_hooks (amb s) = (if tx_done (amb s) then 1 else 0) /\ rb_calls (amb s) <= 1.
+Proof.
+  intros stores bsz ps rgs ops Hn Hv. split; [apply stream_ambient_is_txreaders | now apply stream_release].
+Qed.
+Print Assumptions C36_stream_release.
+
+(* no operation of any schedule (state after any prefix [pre], next operation [o]) fails because the transaction it
+   needs has been released: in particular SQL-backed parts stay readable until their reader is closed *)
+Theorem C36_stream_no_txdone : forall stores bsz ps rgs pre o,
+  0 < length rgs -> (forall i, In (SC i) pre -> i < length rgs) ->
+  let m := decide stores in
+  let s := fst (srun m stores bsz (sinit m ps rgs) pre) in
+  snd (sstep m stores bsz s o) <> RErrS ETxDone /\ forall t, snd (sstep m stores bsz s o) <> RErrEnd ETxDone t.
+Proof.
+  intros stores bsz ps rgs pre o Hn Hv. pose proof (stream_no_txdone stores bsz ps rgs pre o Hn Hv) as H. cbn zeta in *.
+  split; [intros E; apply H; now left | intros t E; apply H; right; now exists t].
+Qed.
+Print Assumptions C36_stream_no_txdone.
+
+(* (b) transactions the part stores begin themselves (outbox read without an ambient transaction: one per lazily
+   opened part).  For EVERY mode, configuration, object, ranges and schedule (repeated closes, deletes and worker
+   passes included): begun = finalized + the transactions held by open parts, at most one per unclosed reader ... *)
+Theorem C36_stream_counts : forall m stores bsz ps rgs ops,
+  let s := fst (srun m stores bsz (sinit m ps rgs) ops) in
+  begun s = finalized s + holding (rdrs s) /\
+  holding (rdrs s) <= length (filter (fun r => negb (r_closed r)) (rdrs s)).
+Proof. exact stream_counts. Qed.
+Print Assumptions C36_stream_counts.
+
+(* ... and begun = finalized once every reader has been closed: nothing leaks on any path *)
+Theorem C36_stream_quiescent : forall m stores bsz ps rgs ops,
+  let s := fst (srun m stores bsz (sinit m ps rgs) (ops ++ close_all (length rgs))) in
+  begun s = finalized s.
+Proof. exact stream_quiescent. Qed.
+Print Assumptions C36_stream_quiescent.
+
+(* what an unsound decision does (mode taken from the default store alone): default filesystem, a storage class routed
+   to the SQL store, object written with that class — the first Read has no transaction to read from *)
+Example C36_stream_default_only_unsound :
+  let stores := [SFs; SSql] in
+  let m := decide_default_only stores in
+  snd (sstep m stores 4 (sinit m (mk_parts 1 false [8] 0) [None]) (SR 0)) = RErrS ENilTx.
+Proof. exact default_only_unsound. Qed.
+(* non-vacuity: outbox store, parts "aaaa" (flushed), "" (pending, empty), "bbbb" (pending): five Reads of 3 bytes, Close *)
+Example C36_stream_ex_outbox :
+  let ps := mk_parts 0 true [4; 0; 4] 1 in
+  map (fun x => (fst x, begun (snd x), finalized (snd x)))
+      (snd (srun MFree [SOutbox] 3 (sinit MFree ps [None]) [SR 0; SR 0; SR 0; SR 0; SR 0; SC 0]))
+  = [(RBytes 3, 1, 1); (RBytes 1, 1, 1); (RBytes 3, 3, 2); (RBytes 1, 3, 2); (REofS, 3, 3); (ROkS, 3, 3)].
+Proof. reflexivity. Qed.
+Example C36_stream_ex_sql_non_default :
+  let ps := mk_parts 1 false [8; 8] 0 in
+  decide [SFs; SSql] = MTx /\
+  map fst (snd (srun MTx [SFs; SSql] 4 (sinit MTx ps [Some (0, 12); Some (5, 16)]) [SR 0; SC 0; SC 0; SE 1; SC 1]))
+  = [RBytes 4; ROkS; ROkS; REnd 11; ROkS].
+Proof. split; reflexivity. Qed.
